@@ -836,14 +836,15 @@ spif_str_trim(spif_str_t self)
     spif_charptr_t start, end;
 
     ASSERT_RVAL(!SPIF_STR_ISNULL(self), FALSE);
+    REQUIRE_RVAL(self->s != (spif_charptr_t) NULL, TRUE);
     start = self->s;
-    end = self->s + self->len - 1;
-    for (; isspace((spif_uchar_t) (*start)) && (start < end); start++);
-    for (; isspace((spif_uchar_t) (*end)) && (start < end); end--);
-    if (start > end) {
+    end = self->s + self->len;
+    for (; (start < end) && isspace((spif_uchar_t) (*start)); start++);
+    for (; (start < end) && isspace((spif_uchar_t) (*(end - 1))); end--);
+    if (start == end) {
         return spif_str_done(self);
     }
-    *(++end) = 0;
+    *end = 0;
     self->len = (spif_stridx_t) (end - start);
     self->size = self->len + 1;
     memmove(self->s, start, self->size);
